@@ -349,11 +349,11 @@ End Gen.
 
 (* ------------------------------------------------------------------ *)
 Section Main.
-Variables (g : list (list nat * expr)) (funs : list (list nat * expr)) (named : bool)
+Variables (g : list (list nat * expr)) (funs : list (list nat * expr))
           (ignored : option nat) (t : list nat) (rx : nat -> nat -> option nat).
 
 Notation PEG := (peg g ignored t rx).
-Notation EXEC := (exec true g funs named ignored t rx).
+Notation EXEC := (exec true g funs ignored t rx).
 
 (* the static scope is exactly the domain of the lexical environment *)
 Definition scope_of (sc : list nat) (E : env) := forall x, In x sc <-> exists v, lookup x E = Some v.
